@@ -132,6 +132,23 @@ def stepLine (st : St) (line : String) : St × String :=
     let (o, s) := ssrbPhi (H off) (H samp) (I vin) (I kView)
     -- two / three float operations each
     (st, s!"{fq o (8 * u24 * (absQ o + absQ (H off)))} {fq s (8 * u24 * absQ s)}")
+  | ["ssrbm", rs] =>
+    -- the axial grid of every output segment in millimetres (first / last m, axial sampling) for the scanner's ring spacing (exact
+    -- binary32 value): `a*sampling - m_offset` with `m_offset = (max+min)*sampling/2` is three roundings of numbers ≤ numAx*sampling
+    match st.pout with
+    | none => (st, "bad-state")
+    | some o =>
+      let r := H rs
+      (st, " ".intercalate (o.segs.map fun s =>
+        let tol := 4 * u24 * absQ (s.axialSampling r) * ((s.numAx.natAbs + 1 : Nat) : Rat) + pow2 (-100)
+        s!"{fq (s.mMm r 0) tol} {fq (s.mMm r (s.numAx - 1)) tol} {fq (s.axialSampling r) (2 * u24 * absQ r)}"))
+  | ["voxsize", rs, bin, fov, seg0, "|", zz, zy, zx, "|", sz, sy, sx] =>
+    match voxelsFromProjData (H rs) (H bin) (H fov) (parseSeg seg0) (H zz) (H zy) (H zx) (I sz) (I sy) (I sx) with
+    | none => (st, "err")
+    | some g =>
+      -- voxel sizes: the model rounds like the source (one or two binary32 divisions): compared exactly
+      let vt (v : Rat) := fq v 0
+      (st, s!"{g.zmin} {g.ymin} {g.xmin} {g.nz} {g.ny} {g.nx} {vt g.vz} {vt g.vy} {vt g.vx}")
   | ["ev", d1, r1, d2, r2, t, w] =>
     match st.pin with
     | none => (st, "bad-state")
